@@ -3,6 +3,7 @@
 cd "$(dirname "$0")/.." || exit 2
 (cd lean && lake build AJ ajdriver >/dev/null 2>&1)
 export AJ_EVIDENCE_DIR=$(mktemp -d) AJ_REPLAY_DIR=$(mktemp -d)
+[ -n "$VP_RUN_REPO" ] && export AJ_REPO=$VP_RUN_REPO   # a private snapshot of /repo when run with `vp run --with-repo`
 for seed in $(seq $1 $2); do
   for i in $(seq -w 1 20); do
     out=$(VERIF_SEED=$seed ./check C$i --no-audit 2>&1); rc=$?
